@@ -8,6 +8,12 @@ Data types (a per-host reply, the query configuration, the observable result), t
 how `aggregateResults` works —, wire parsing/printing and the spec judge.
 Nothing here depends on `Gen/*` or `Model/*`.
 
+Two more case kinds put the querier's fan-out (`APIClientQuerier.Query`) in front of the
+aggregation: `fan` observes the result channel of the real `Query` (one entry per result taken
+until the channel is closed), `run` the result of the real distributed `QueryRunner.Run` on top of
+it. Their spec: exactly one result per entry of the host list — answering hosts with their rows,
+failed hosts with their error — whatever `MaxConcurrent` is; and for `run` the same `specResult`.
+
 Abstractions (same on the Go side, harness/c15.go): a row key is (timestamp, interface id, dport)
 — the labels/attributes the harness varies —, host names are `h<id>`, interfaces `eth<id>`,
 counters are naturals (no uint64 wrap), times are whole unix seconds, `none` = Go's zero time.
@@ -89,6 +95,9 @@ structure Result where
   deriving DecidableEq, Repr, Inhabited
 
 namespace Reply
+def host : Reply → Nat
+  | .ok h _ _ _ _ _ _ _ _ => h
+  | .err h _ _ => h
 def rows : Reply → List Row
   | .ok _ _ _ _ _ _ _ _ rows => rows
   | .err .. => []
@@ -368,9 +377,86 @@ def expandOuts (outs : List (String × String × String)) : List (String × Stri
 def negTs (l : List Reply) : Bool :=
   (allRows l).any fun r => match r.1.ts with | some t => t < 0 | none => false
 
+/-! ### the querier's fan-out (`fan`, `run` cases) -/
+
+/-- `MaxConcurrent` of the case: an integer, or `default` (the constructor's `2 * NumCPU`) -/
+def parseMc (s : String) : Option (Option Int) :=
+  if s == "default" then some none else (Wire.parseInt s).map some
+
+/-- what the consumer of the result channel must see of one host: its rows, or its error -/
+def fanEntry : Reply → String
+  | .ok h _ _ _ _ _ _ _ rows => toString h ++ ":ok:" ++ toString rows.length
+  | .err h msg _ => toString h ++ ":error:" ++ msg
+
+def strLe (a b : String) : Bool := decide (a ≤ b)
+
+/-- THE SPEC of the fan-out: one result per entry of the host list, nothing else (as a sorted list) -/
+def specFan (l : List Reply) : List String := insSort strLe (l.map fanEntry)
+
+/-- the host a channel entry `host:ok:n` / `host:error:kind` speaks of -/
+def entryHost (e : String) : String := (e.splitOn ":").headD ""
+
+def countOf (x : String) (l : List String) : Nat := (l.filter (· == x)).length
+
+/-- why a list of observed entries is not the expected one -/
+def fanMismatch (l : List Reply) (got : List String) : String :=
+  let want := l.map fanEntry
+  let wantHosts := want.map entryHost
+  let gotHosts := got.map entryHost
+  -- a host with fewer results than entries in the host list
+  match l.find? (fun r => countOf (toString r.host) gotHosts < countOf (toString r.host) wantHosts) with
+  | some r => if r.isOk then "violates:host-missing" else "violates:failed-host-not-reported"
+  | none =>
+    if gotHosts.any (fun h => countOf h gotHosts > countOf h wantHosts) then "violates:host-duplicated" else
+    match l.find? (fun r => countOf (fanEntry r) got < countOf (fanEntry r) want) with
+    | some r => if r.isOk then "violates:wrong-result-for-host" else "violates:failed-host-not-reported"
+    | none => "violates:unexpected-entry"
+
+def judgeFan (mc replies out : String) : String :=
+  match parseMc mc, parseReplies replies with
+  | some _, some l =>
+    if out == "panic" then "violates:panic" else
+    match out.splitOn ";" with
+    | [state, entries] =>
+      let got := Wire.listField entries
+      if state == "hang" then "violates:hang" else
+      if state != "closed" then "violates:unparsable" else
+      if insSort strLe got == specFan l then "holds" else fanMismatch l got
+    | _ => "violates:unparsable"
+  | _, _ => "violates:unparsable"
+
+/-- what `query.Args` can express without a time label (and what `Args.Prepare` keeps of it) -/
+def runCfgOk (cfg : Cfg) : Bool :=
+  cfg.limit ≥ 1 && !cfg.asc && !cfg.tsLabel && cfg.binSecs == 300 && cfg.sortBy != .time
+
+def judgeRun (mc cfg replies out : String) : String :=
+  match parseMc mc, parseCfg cfg, parseReplies replies with
+  | some _, some cfg, some l =>
+    if ¬ runCfgOk cfg then "holds:outside-domain-run-cfg" else
+    if l.isEmpty then "holds:outside-domain-no-hosts" else
+    if ¬ DistinctHosts l ∨ ¬ (l.map Reply.host).Nodup then "holds:outside-domain-duplicate-hosts" else
+    if negTs l then "holds:outside-domain-negative-time" else
+    if out == "panic" then "violates:panic" else
+    if out == "hang" then "violates:hang" else
+    if out.startsWith "err:" then "violates:query-failed" else
+    let want := specResult cfg l
+    let ws := showResult want
+    if out == ws then "holds" else
+    if want.rows.isEmpty ∧ out == showResult { want with status := ("empty", "noresults") } then "holds" else
+    let d := firstDiff ws out
+    if d == "shape" then "violates:unparsable" else
+    -- the host statuses first: is every host heard of, every failed host reported?
+    let gotHosts := Wire.listField ((out.splitOn ";").getD 1 "-")
+    match l.find? (fun r => r.statusEntries.any fun e => !gotHosts.contains (showHost e)) with
+    | some r => if r.isOk then "violates:host-missing" else "violates:failed-host-not-reported"
+    | none => "violates:differs-from-spec-" ++ d
+  | _, _, _ => "violates:unparsable"
+
 /-- spec verdict on the implementation's outputs for several arrival orders of one reply set -/
 def judge (args : List String) (out : String) : String :=
   match args with
+  | ["fan", mc, replies] => judgeFan mc replies out
+  | ["run", mc, cfg, replies] => judgeRun mc cfg replies out
   | ["agg", cfg, replies, perms] =>
     match parseCfg cfg, parseReplies replies, parsePerms perms, (out.splitOn "|").mapM splitPermOut with
     | some cfg, some l, some perms, some outs =>
